@@ -4,7 +4,7 @@
 (* pass machine.  Checked: a build that ends "ok" is a fixed point of the reference       *)
 (* semantics (no value of an earlier pass survives), and the loop ends within MaxPass.    *)
 EXTENDS Asm
-CONSTANTS MaxLen, MaxPass, Origin
+CONSTANTS MaxLen, MaxLen2, MaxPass, Origin
 
 N(n) == [k |-> "num", n |-> n, radix |-> "dec", lz |-> 0]
 Id(p) == [k |-> "id", name |-> JoinPath(p), path |-> p, mod |-> ""]
@@ -27,14 +27,28 @@ Alphabet ==
         [k |-> "label", name |-> "s", hasBody |-> TRUE, sid |-> "0",
            body |-> <<Insn("lda", "dir", Id(<<"super", "b">>)), [k |-> "label", name |-> "b", hasBody |-> FALSE, body |-> <<>>, sid |-> "0"]>>]}
 
+(* a second family: two segments (one relocated), a brace scope with block symbols, a forward constant, `* =` backwards *)
+Alphabet2 ==
+     {Label(n) : n \in Names}
+  \cup {Insn("lda", "dir", Id(<<n>>)) : n \in Names}
+  \cup {Insn("jmp", "dir", Id(<<"b">>)), Insn("beq", "dir", Id(<<"+">>)), Insn("bne", "dir", Id(<<"-">>)),
+        [k |-> "useseg", name |-> "s2", hasBody |-> TRUE, sid |-> "0", body |-> <<Label("b"), Insn("lda", "dir", Id(<<"a">>))>>],
+        [k |-> "useseg", name |-> "s2", hasBody |-> FALSE, sid |-> "0", body |-> <<>>],
+        [k |-> "braces", sid |-> "$B", body |-> <<Insn("beq", "dir", Id(<<"+">>)), Insn("lda", "dir", Id(<<"a">>)), Insn("bne", "dir", Id(<<"-">>))>>],
+        [k |-> "setpc", e |-> N(248), sid |-> "0"],
+        [k |-> "data", w |-> 2, es |-> <<[k |-> "id", name |-> "segments.s2.end", path |-> <<"segments", "s2", "end">>, mod |-> ""]>>, sid |-> "0"],
+        [k |-> "const", name |-> "c", e |-> Plus(Id(<<"a">>), 1), sid |-> "0"]}
+Prelude2 == <<[k |-> "defseg", name |-> "s1", start |-> N(Origin), hasPc |-> FALSE, pc |-> N(0), sid |-> "d1"],
+              [k |-> "defseg", name |-> "s2", start |-> N(254), hasPc |-> TRUE, pc |-> N(512), sid |-> "d2"]>>
 Programs == UNION {[1..n -> Alphabet] : n \in 1..MaxLen}
+Programs2 == UNION {[1..n -> Alphabet2] : n \in 1..MaxLen2}
 Sid(p) == [i \in 1..Len(p) |-> [p[i] EXCEPT !.sid = ToString(i)]]
 SetPc == [k |-> "setpc", e |-> N(Origin), sid |-> "org"]
 
 VARIABLES prog, m
 vars == <<prog, m>>
 
-Init == /\ prog \in {<<SetPc>> \o Sid(p) : p \in Programs}
+Init == /\ prog \in {<<SetPc>> \o Sid(p) : p \in Programs} \cup {Prelude2 \o Sid(p) : p \in Programs2}
         /\ m = MInit
 Pass == /\ m.phase = "run" /\ m.pass < MaxPass
         /\ m' = Decide(m, RunPass(prog, m, TRUE), 8192)
